@@ -56,7 +56,7 @@ def explain(n, obs):
 
 def check_nodes(F, p, where, fam_key, size):
     """every node of p against the independent traversal (same rule as the main loop)"""
-    n = 0
+    n = check_containers(F, p, where, fam_key, size)
     for node, below_list in all_nodes(p):
         n += 1
         if any(not hasattr(node, a) for a in ATTRS):
@@ -74,6 +74,82 @@ def check_nodes(F, p, where, fam_key, size):
             diffs.append("gengy_types_this_way=" + str({k.__name__: len(v) for k, v in obs[3].items()}) + " (traversal: " + str({k.__name__: len(v) for k, v in exp[3].items()}) + ")")
         for w in why:
             F.add(f"{fam_key}:{w}", f"{where}: node {show(node, 60)}: " + "; ".join(diffs), size=size + count_nodes(node) * 10)
+    return n
+
+
+# ---- grammar local to this driver: a list field that is NOT the last field, followed by a field of the same types ----
+from abc import ABC as _ABC
+from dataclasses import dataclass as _dc
+
+
+class EQ11(_ABC):
+    pass
+
+
+@_dc
+class LitQ11(EQ11):
+    v: int
+
+
+@_dc
+class SeqQ11(EQ11):
+    items: list[EQ11]
+    last: EQ11
+    more: list[EQ11]
+
+
+class AtomQ2(EQ11, _ABC):
+    pass
+
+
+@_dc
+class VarQ2(AtomQ2):
+    i: int
+
+
+@_dc
+class NegQ2(EQ11):
+    e: EQ11
+    a: AtomQ2
+
+
+LAYERED = [("Q2-two-abstract-layers", [EQ11, AtomQ2, VarQ2, NegQ2, LitQ11], EQ11, "E <- Atom (abstract) <- Var; Neg(e: E, a: Atom): a field typed by the upper abstract class holds a production two expansions away")]
+
+
+def local_family():
+    return [("Q1-list-then-sibling", [EQ11, LitQ11, SeqQ11], EQ11, "Seq(items: list[E], last: E, more: list[E]): list fields followed by siblings of the same types")]
+
+
+def _containers(v, out):
+    if H.is_node(v):
+        for c in H._dc_children(v):
+            _containers(c, out)
+    elif isinstance(v, (list, tuple)):
+        if isinstance(v, list) and hasattr(v, "gengy_types_this_way"):
+            out.append(v)
+        for e in v:
+            _containers(e, out)
+    return out
+
+
+def check_containers(F, p, where, fam_key, size):
+    """The type index carried by a labelled list container lists exactly the grammar nodes beneath that list (per production
+    type): siblings of the list, and nodes of other lists, do not belong to it."""
+    n = 0
+    for li in _containers(p, []):
+        n += 1
+        exp = {}
+        for node, _ in all_nodes(list(li)):
+            exp.setdefault(type(node), []).append(id(node))
+        exp = {k: sorted(v) for k, v in exp.items()}
+        try:
+            obs = {k: sorted(id(x) for x in v) for k, v in dict(li.gengy_types_this_way).items() if isinstance(k, type) and H.dataclasses.is_dataclass(k) and v}
+        except Exception:
+            continue
+        if obs != exp:
+            F.add(f"{fam_key}:list-container-index-differs",
+                  f"{where}: list {show(li, 60)} carries gengy_types_this_way=" + str({k.__name__: len(v) for k, v in obs.items()}) + ", the nodes beneath it are " + str({k.__name__: len(v) for k, v in exp.items()}),
+                  size=size + 10 * len(li))
     return n
 
 
@@ -111,11 +187,75 @@ def parents_after_crossover(F, fam, seed, quick):
     return n
 
 
+def expansion_mode_probe(F, fam, seed, quick):
+    """Grammars extracted with expansion_depthing=True (abstract expansions and list levels are counted): one-step fold
+    equations of gengy_nodes / gengy_distance_to_term at every node with fields, the number of abstract expansions between a
+    field's declared type and the production found there taken from the class hierarchy (abstract classes on the inheritance
+    chain), not from the grammar's tables."""
+    from geneticengine.grammar.grammar import extract_grammar
+    from geneticengine.random.sources import NativeRandomSource
+    from geneticengine.representations.tree.initializations import MaxDepthDecider
+    from geneticengine.representations.tree.treebased import TreeBasedRepresentation
+
+    def chain(t, c):
+        return len([k for k in type(c).__mro__[1:] if isinstance(t, type) and issubclass(k, t) and H.is_abs(k)])
+
+    def label_of(c, attr):
+        if isinstance(c, (int, float, str, bool)) or c is None:
+            return 1
+        return getattr(c, attr, None)
+
+    n = 0
+    for name, classes, start, _desc in fam:
+        try:
+            g = extract_grammar(list(classes), start, expansion_depthing=True)
+            lo = g.get_min_tree_depth()
+            if lo >= 1000000:
+                continue
+        except Exception:
+            continue
+        for sd in range(seed, seed + (3 if quick else 10)):
+            try:
+                r = NativeRandomSource(sd)
+                p = TreeBasedRepresentation(g, MaxDepthDecider(r, g, lo + 2)).create_genotype(r)
+            except Exception:
+                continue
+            for node, _below in all_nodes(p):
+                fs = H.fields_of(type(node))
+                if not fs or not hasattr(node, "gengy_nodes"):
+                    continue
+                tot, dist, ok = 1, 1, True
+                for fname, ft in fs:
+                    c = getattr(node, fname, None)
+                    seq = isinstance(c, (list, tuple))
+                    base = H.form(ft)
+                    while base[0] == "ann":
+                        base = H.form(base[1])
+                    if isinstance(c, tuple) or base[0] in ("union", "tuple", "other"):
+                        ok = False
+                        break
+                    cn, cd = label_of(c, "gengy_nodes"), label_of(c, "gengy_distance_to_term")
+                    if cn is None or cd is None:
+                        ok = False
+                        break
+                    adj = 1 if seq else (chain(base[1], c) if base[0] == "class" and H.is_abs(base[1]) else 0)
+                    tot += adj + cn
+                    dist = max(dist, cd + adj + (0 if seq else 1))
+                if not ok:
+                    continue
+                n += 1
+                if (node.gengy_nodes, node.gengy_distance_to_term) != (tot, dist):
+                    F.add("create_node:expansion-mode-fold-equation",
+                          f"{name} (expansion_depthing=True), seed {sd}: node {show(node, 60)}: gengy_nodes={node.gengy_nodes}, gengy_distance_to_term={node.gengy_distance_to_term}; "
+                          f"one-step fold over its fields (abstract expansions counted along the class hierarchy) gives {tot}, {dist}", size=50 + count_nodes(node) * 10)
+    return n
+
+
 def run(tier: str, seed: int) -> dict:
     thorough = tier == "thorough"
     budget = Budget(430 if thorough else 33)
     F = Findings("C11")
-    fam = H.full_family()
+    fam = local_family() + H.full_family()
     ex_runs = 2500 if thorough else 200
     seeds = 40 if thorough else 6
     extra_depths = 3 if thorough else 2
@@ -148,6 +288,7 @@ def run(tier: str, seed: int) -> dict:
         if len(samples) < 8 and len(distinct) % 173 == 1:
             samples.append(f"{c.where()} -> {show(p, 80)}")
         fam_key = "stack" if c.rep == "stack" else "create_node"
+        nodes_checked += check_containers(F, p, c.where(), fam_key, c.size)
         for n, below_list in all_nodes(p):
             nodes_checked += 1
             missing = [a for a in ATTRS if not hasattr(n, a)]
@@ -186,6 +327,7 @@ def run(tier: str, seed: int) -> dict:
                     size=c.size + count_nodes(n) * 10,
                 )
     nodes_checked += parents_after_crossover(F, fam, seed, not thorough)
+    nodes_checked += expansion_mode_probe(F, fam + LAYERED, seed, not thorough)
     n_ex = sum(1 for x in cells if x[4])
     rule = (
         f"{len(fam)} family grammars x 8 representations/deciders x max_depth in [reported minimum, +{extra_depths - 1}]: every node of every program created over all draw outcomes "
